@@ -1,1 +1,3 @@
 pub mod bencode;
+pub mod geometry;
+pub mod wire;
